@@ -192,18 +192,22 @@ def replay_file(path, timeout=600):
     -> (reproduced: bool|None, output)"""
     env = dict(os.environ)
     env['PYTHONPATH'] = VERIF
-    env.pop('PYTHONHASHSEED', None)
-    try:
-        r = subprocess.run([PY, '-m', 'checks.replay', path], capture_output=True, text=True, timeout=timeout,
-                           cwd=VERIF, env=env)
-    except subprocess.TimeoutExpired:
-        return None, 'replay timed out'
-    out = (r.stdout + r.stderr).strip()
-    if r.returncode == 1:
-        return True, out
-    if r.returncode == 0:
-        return False, out
-    return None, out
+    out = ''
+    # the real code runs under hash randomisation: a counterexample counts as reproduced if it reproduces under
+    # any of a few fixed hash seeds (a violation under some seed is a violation)
+    for seed in ('0', '1', '2'):
+        env['PYTHONHASHSEED'] = seed
+        try:
+            r = subprocess.run([PY, '-m', 'checks.replay', path], capture_output=True, text=True, timeout=timeout,
+                               cwd=VERIF, env=env)
+        except subprocess.TimeoutExpired:
+            return None, 'replay timed out'
+        out = (r.stdout + r.stderr).strip()
+        if r.returncode == 1:
+            return True, out
+        if r.returncode != 0:
+            return None, out
+    return False, out
 
 
 def write_evidence(pid, tier, seed, total, level='model_checking', extra=None, violations=0):
